@@ -37,3 +37,35 @@ Theorem C04_glob_init_table : forall P he f, plat_windows P = false ->
   dot = Z.testbit fl 6 /\ cs = get_case P fl.
 Proof. exact GlobInit.glob_init_table. Qed.
 Print Assumptions C04_glob_init_table.
+
+(* ---- the REALPATH decision of globmatch (_Match.match / _match_real / _fs_match, model RealMatch.v) ------------------
+   For every file-system oracle (lexists / isdir / islink on path strings), every regex oracle, name, pattern lists and
+   root: (1) a path that does not exist never matches; (2) the patterns are asked about the name with a separator
+   appended exactly when the name is written without one and is a directory; (3) with FOLLOW, and for exclusion
+   patterns always, the verdict is the regexes' alone. *)
+From WC Require RealMatch.
+From WC.Proofs Require RealLemmas.
+
+Theorem C04_nonexistent_never_matches : forall islink isdir lexists pat rematch filename include exclude follow root,
+  (if starts_with [47%N] filename then lexists filename else lexists (RealMatch.pjoin root filename)) = false ->
+  RealMatch.match_realpath islink isdir lexists pat rematch filename include exclude follow root = false.
+Proof. exact RealLemmas.nonexistent_never_matches. Qed.
+Print Assumptions C04_nonexistent_never_matches.
+
+Theorem C04_directory_rule : forall islink isdir pat rematch filename include exclude follow root,
+  RealMatch.match_real islink isdir pat rematch filename include exclude follow root =
+  RealLemmas.verdict_on islink pat rematch (RealLemmas.effective isdir root filename) include exclude follow root.
+Proof. exact RealLemmas.match_real_effective. Qed.
+Print Assumptions C04_directory_rule.
+
+Theorem C04_follow_is_regex_only : forall islink pat rematch g include exclude root,
+  RealLemmas.verdict_on islink pat rematch g include exclude true root =
+  existsb (fun p => RealLemmas.matched (rematch p g)) include && negb (existsb (fun p => RealLemmas.matched (rematch p g)) exclude).
+Proof. exact RealLemmas.follow_is_regex_only. Qed.
+Print Assumptions C04_follow_is_regex_only.
+
+Theorem C04_no_links_no_difference : forall (islink : str -> bool) pat (rematch : pat -> str -> RealMatch.mres) g include exclude root,
+  (forall q, islink q = false) ->
+  RealLemmas.verdict_on islink pat rematch g include exclude false root = RealLemmas.verdict_on islink pat rematch g include exclude true root.
+Proof. exact RealLemmas.no_links_follow_irrelevant. Qed.
+Print Assumptions C04_no_links_no_difference.
